@@ -331,7 +331,10 @@ def run(ctx):
   # is evaluated for two splits of the same absolute temperature; temperature and divergence totals agree
   rs = ctx.tlc('PrimitivePoly', 'PrimitivePoly_split.cfg', tag='split_poly', workers=6, timeout=3600)
   ctx.require_actions(rs, ['Diagnose', 'Divergence', 'Temperature', 'Rest'])
-  ctx.notes['split_independence_of_the_continuous_machine'] = f'{rs.states} states, SplitFree and HOfAgrees hold'
+  rs3 = ctx.tlc('PrimitivePoly', 'PrimitivePoly_split_deep.cfg', tag='split_poly3', workers=4, timeout=3600)
+  ctx.require_actions(rs3, ['Diagnose', 'Divergence', 'Temperature', 'Rest'])
+  ctx.notes['split_independence_of_the_continuous_machine'] = (
+      f'{rs.states} + {rs3.states} states (two and three levels), SplitFree and HOfAgrees hold')
   vcases = rv.cases if not q else [c for i, c in enumerate(rv.cases) if i % 4 == 0 or len(c['b']) == 2]
   res = common.parallel_map('c04', 'replay_vertical', vcases, tag='v', outdir=os.path.join(ctx.out, 'par'))
   lcases = _expand(rl.cases, q, ctx.seed)
